@@ -67,6 +67,9 @@ pub struct Stats {
     pub labels: BTreeMap<String, u64>,
     pub counters: BTreeMap<String, u64>,
     pub samples: Vec<Value>,
+    /// failures whose signature is listed as known finding: counted, the search continues
+    #[serde(default)]
+    pub known_hits: BTreeMap<String, u64>,
     /// first generated case (used as sample when no non-trivial sample was recorded)
     pub first_case: Option<Value>,
     pub frozen: bool,
@@ -117,6 +120,9 @@ impl Stats {
         if self.first_case.is_none() {
             self.first_case = o.first_case;
         }
+        for (k, v) in o.known_hits {
+            *self.known_hits.entry(k).or_insert(0) += v;
+        }
     }
 }
 
@@ -155,6 +161,13 @@ pub trait Property: Sync + Send {
     }
 }
 
+static CURRENT_PROP: std::sync::Mutex<String> = std::sync::Mutex::new(String::new());
+
+/// The property whose cases are being generated in this process (for the known-findings filter).
+pub fn set_current_prop(id: &str) {
+    *CURRENT_PROP.lock().unwrap() = id.to_string();
+}
+
 pub fn splitmix(mut x: u64) -> u64 {
     x = x.wrapping_add(0x9E3779B97F4A7C15);
     let mut z = x;
@@ -191,6 +204,10 @@ where
     let mut runner = TestRunner::new(config);
     let st = RefCell::new(std::mem::take(stats));
     let failed = Cell::new(false);
+    // failures listed as known findings do not end the search (they are counted and reported
+    // once by the parent): otherwise every campaign would stop at the first known failure
+    let known = KnownFindings::load(&verif_root().join("KNOWN_FINDINGS.txt"));
+    let prop_id = CURRENT_PROP.lock().unwrap().clone();
     let result = runner.run(&strategy, |c| {
         let mut s = st.borrow_mut();
         if failed.get() {
@@ -203,6 +220,10 @@ where
         }
         match check(&c, &mut s) {
             Ok(()) => Ok(()),
+            Err(f) if !failed.get() && known.get(&prop_id, &f.signature).is_some() => {
+                *s.known_hits.entry(f.signature).or_insert(0) += 1;
+                Ok(())
+            }
             Err(f) => {
                 failed.set(true);
                 s.frozen = true;
@@ -411,6 +432,9 @@ pub fn run_property(p: &dyn Property, tier: Tier, seed: u64) -> RunOutcome {
         }
     }
 
+    // known findings hit (and skipped) by the workers
+    let mut known_from_workers: Vec<(String, u64)> = total.known_hits.iter().map(|(k, v)| (k.clone(), *v)).collect();
+    known_from_workers.sort();
     // classify failures
     let mut violations = 0;
     let mut harness_errors = 0;
@@ -463,6 +487,12 @@ pub fn run_property(p: &dyn Property, tier: Tier, seed: u64) -> RunOutcome {
         }
     }
 
+    for (sig, n) in &known_from_workers {
+        if known_printed.insert(sig.clone()) {
+            let desc = known.get(p.id(), sig).cloned().unwrap_or_default();
+            println!("KNOWN-FINDING: property={} signature={} {} ({} generated cases hit it; the search continued)", p.id(), sig, desc, n);
+        }
+    }
     // required labels
     let mut missing = Vec::new();
     if violations == 0 {
@@ -541,6 +571,7 @@ pub fn run_property(p: &dyn Property, tier: Tier, seed: u64) -> RunOutcome {
 }
 
 fn run_workers_in_threads(p: &dyn Property, tier: Tier, seed: u64, threads: u64, per: u64) -> Vec<(Stats, Option<(Value, Failure)>)> {
+    set_current_prop(p.id());
     std::thread::scope(|sc| {
         let mut hs = Vec::new();
         for t in 0..threads {
@@ -589,6 +620,7 @@ pub struct WorkerOut {
 
 /// Entry point of `hpo_verif --worker <ID> <tier> <seed> <index> <cases>`.
 pub fn worker_main(p: &dyn Property, tier: Tier, seed: u64, index: u64, per: u64) -> i32 {
+    set_current_prop(p.id());
     let out = std::thread::scope(|sc| {
         std::thread::Builder::new()
             .stack_size(256 << 20)
